@@ -153,6 +153,87 @@ func (s *scenario) chainedTxs(n *node, content []entry, nextNo uint64) (txs []*t
 	return txs, fees, shape
 }
 
+const sigInvalidSpend = "invalid-qi-spend-accepted"
+
+// invalidTxs builds Qi transactions for a foreign miner's block that spend ONE output of the committed set twice:
+//   dupin   one transaction, inputs {c, c}                 (aggregated signature of the owner's key with itself)
+//   dupin3  one transaction, inputs {c, c2, c}              (the duplicate is not adjacent, another input in between)
+//   dspend  two transactions of the block, both spending c
+// Amounts are what an executor that counts every listed input would see (so fees / outputs are consistent for a
+// node that wrongly accepts the transaction). Nothing is marked used: the block must be refused.
+func (s *scenario) invalidTxs(n *node, content []entry) (txs []*types.Transaction, fees *big.Int, shape string) {
+	chainID := n.z.Config.ChainID
+	signer := types.NewSigner(chainID, loc)
+	fees = big.NewInt(0)
+	var coins []coin
+	for _, e := range content {
+		if !e.ut || s.used[string(e.key)] || e.utxo.Denomination < 8 || e.utxo.Lock == nil || e.utxo.Lock.Sign() != 0 {
+			continue
+		}
+		ki := s.a.keyFor(e.utxo.Address)
+		if ki < 0 {
+			continue
+		}
+		th, ix, _ := rawdb.ReverseUtxoKey(e.key)
+		coins = append(coins, coin{e, th, ix, ki})
+	}
+	if len(coins) == 0 {
+		return nil, fees, ""
+	}
+	mk := func(ins []coin, outs []uint8) *types.Transaction {
+		qt := &types.QiTx{ChainID: chainID}
+		var keys []*btcec.PrivateKey
+		for _, i := range ins {
+			qt.TxIn = append(qt.TxIn, types.TxIn{PreviousOutPoint: types.OutPoint{TxHash: i.th, Index: i.ix}, PubKey: s.a.qiKeys[i.key].PubKey().SerializeUncompressed()})
+			keys = append(keys, s.a.qiKeys[i.key])
+			fees.Add(fees, types.Denominations[i.e.utxo.Denomination])
+		}
+		for j, d := range outs {
+			qt.TxOut = append(qt.TxOut, types.TxOut{Denomination: d, Address: s.a.qiAddrs[(ins[0].key+1+j)%len(s.a.qiAddrs)].Bytes(), Lock: big.NewInt(0)})
+			fees.Sub(fees, types.Denominations[d])
+		}
+		tx, err := signQi(qt, keys, signer)
+		if err != nil {
+			rep.Count("qi_sign_error")
+			return nil
+		}
+		return tx
+	}
+	c := coins[s.r.Intn(len(coins))]
+	d := c.e.utxo.Denomination
+	shape = []string{"dupin", "dspend", "dupin3"}[s.invalidN%3]
+	var c2 *coin
+	if shape == "dupin3" {
+		for i := range coins {
+			if !bytes.Equal(coins[i].e.key, c.e.key) {
+				c2 = &coins[i]
+				break
+			}
+		}
+		if c2 == nil {
+			shape = "dupin"
+		}
+	}
+	s.invalidN++
+	switch shape {
+	case "dupin":
+		if t := mk([]coin{c, c}, []uint8{d, d - 1}); t != nil {
+			txs = []*types.Transaction{t}
+		}
+	case "dupin3":
+		if t := mk([]coin{c, *c2, c}, []uint8{d, d - 1, c2.e.utxo.Denomination}); t != nil {
+			txs = []*types.Transaction{t}
+		}
+	case "dspend":
+		t1 := mk([]coin{c}, []uint8{d - 1})
+		t2 := mk([]coin{c}, []uint8{d - 2})
+		if t1 != nil && t2 != nil {
+			txs = []*types.Transaction{t1, t2}
+		}
+	}
+	return txs, fees, shape
+}
+
 // ---------------- head switches ----------------
 
 // what the chain looked like after each appended block (index = height-1)
@@ -238,8 +319,8 @@ func headSwitch(nodes []*node, prim *node, hist []histEntry, k int, spec ChainSp
 			failCase(sigRollback, fmt.Sprintf("SetCurrentHeader back from block %d to its ancestor %d fails on %s: %s", no, target.block.NumberU64(common.ZONE_CTX), n.name, errClass(err)), spec, no, n.name)
 			return false, nil
 		}
-		if n == prim && k == 1 {
-			undone = scan(n.db) // what the rollback of exactly this block left (Coq case: o_undone)
+		if n == prim {
+			undone = scan(n.db) // what the rollback loop over these k blocks left (Coq case: o_undone, switch_back)
 			if undone == nil {
 				undone = []entry{}
 			}
